@@ -17,7 +17,7 @@ class C07(ModelCheck):
             'lists, and the close event of each. non-trivial: >= 3 events and >= 2 windows; distinct = distinct (program, schedule)')
     assumptions = ['timestamps are non-decreasing per key (they are read from the virtual clock)',
                    'empty windows (opened eagerly after a closing item) are implementation detail and ignored on both sides']
-    probe_names = ('datetime_gap>=1day', 'gap==inactive', 'gap==active', 'equal_timestamps', 'consecutive_closing', 'closing_last',
+    probe_names = ('numpy_timestamps', 'datetime_gap>=1day', 'gap==inactive', 'gap==active', 'equal_timestamps', 'consecutive_closing', 'closing_last',
                    'expiring_and_closing', 'datetime', 'under_group_by', 'both_none')
 
     def gen_program(self, rng, tier):
@@ -28,7 +28,7 @@ class C07(ModelCheck):
                 'active': rng.choice([None, None, 3, 5, 8]),
                 'inactive': rng.choice([None, None, 1, 2, 3]),
                 'closing': closing, 'include': rng.random() < 0.5,
-                'dt': rng.choice([False, False, False, 'seconds', 'hours', 'hours', 'days', 'days'])}
+                'dt': rng.choice([False, False, False, 'seconds', 'hours', 'hours', 'days', 'days', 'np_int', 'np_float', 'np_dt64'])}
         inner = g.pipeline(St('rec', closing), Flags(deny=('time_split', 'progress')), rng.choice([0, 0, 1]), rng.choice([1, 1, 2]))
         node['inner'] = inner
         if rng.random() < 0.55:
@@ -45,6 +45,8 @@ class C07(ModelCheck):
             p['under_group_by'] += 1
         if ts.get('dt'):
             p['datetime'] += 1
+        if str(ts.get('dt')).startswith('np_'):
+            p['numpy_timestamps'] += 1
         if ts.get('dt') == 'days' or (ts.get('dt') == 'hours' and any(b['t'] - a['t'] >= 24 for a, b in zip(case['events'], case['events'][1:]))):
             p['datetime_gap>=1day'] += 1
         if A is None and I is None:
